@@ -130,6 +130,14 @@ def _cases(spec, rng):
                 yield [rng.choice(["sbv2fp@meth", "ubv2fp@meth"]), rng.choice(RMS), ["bvv", v, w], srt]
         for x in fpbuild.hostile_pyfloats():
             yield ["fpv_py", float(x).hex(), srt]
+        # plain Python floats as operands of the operators (coerced by claripy), the two zeros one after the other
+        xs_ = ["fps", "x" + srt, srt]
+        for x in (0.0, -0.0, 0.0, -0.0, 1.5, -1.5, float("inf"), float("-inf"), 5e-324, 0.1):
+            lit = ["fpv_py@raw", float(x).hex(), srt]
+            for o in ("fpadd@py", "fpsub@py", "fpmul@py", "fpdiv@py"):
+                yield [o, "RNE", xs_, lit]
+                yield [o, "RNE", lit, xs_]
+            yield ["ite", ["bools", "p"], xs_, ["fpv_py", float(x).hex(), srt]]
     elif k == "sym":
         for _ in range(spec["n"]):
             yield sym_case(rng)
@@ -238,11 +246,14 @@ def nontrivial(d):
 def run_shard(spec, res):
     rng = random.Random(f"{spec['seed']}:{PID}:{spec['kind']}:{spec.get('stream')}:{spec.get('S')}:{spec.get('op')}:{spec.get('rms')}")
     tmo = 2000 if spec["tier"] == "quick" else 10000
+    keep = []  # earlier expressions stay alive while later ones are built (weakly held constant tables)
     for d in _cases(spec, rng):
-        judge(d, res, rng, tmo)
+        judge(d, res, rng, tmo, keep)
+        if len(keep) > 3000:
+            del keep[:1500]
 
 
-def judge(d, res, rng, tmo):
+def judge(d, res, rng, tmo, keep=None):
     import claripy
     import z3
 
@@ -255,6 +266,8 @@ def judge(d, res, rng, tmo):
     except Exception as e:  # noqa: BLE001  (C04 judges crashes)
         res.count("build_raised:" + type(e).__name__)
         return
+    if keep is not None:
+        keep.append(ast)
     res.case(d, nontrivial(d))
     res.count("op:" + d[0].split("@")[0])
     try:
